@@ -74,6 +74,7 @@ type Step struct {
 	Park     string `json:"park,omitempty"` // start/release: gate at which the subscription parks next
 	W        *WOp   `json:"w,omitempty"`
 	ParkFeed bool   `json:"park_feed,omitempty"` // w: park between tree write and feed
+	ParkCB   int    `json:"park_cb,omitempty"`   // w (noti, reset): park inside the feed callback after its ParkCB-th entry was forwarded
 	N        int    `json:"n,omitempty"`         // grant: credits; sleep: virtual seconds; relw: which parked writer
 }
 
@@ -134,12 +135,12 @@ var profiles = map[string]profile{
 		wkinds:  []string{"noti", "noti", "noti", "noti", "noti", "noti", "noti", "noti", "noti", "noti", "noti", "noti", "noti", "noti", "reset"},
 		parks:   []string{""}},
 	"C14": {minTargets: 2, maxTargets: 4, modes: []string{"stream"}, gatedPct: 10, maxSteps: 30, maxSubs: 4, preload: 4, starPct: 35, pickPct: 30, bulkPct: 4, bulkNs: []int{5, 40, 70},
-		weights: map[string]int{"w": 14, "start": 6, "release": 2, "check": 2, "drain": 3},
+		weights: map[string]int{"w": 14, "start": 6, "release": 2, "relw": 2, "check": 2, "drain": 3, "rmadd": 2},
 		wkinds:  []string{"noti", "noti", "noti", "noti", "noti", "reset", "remove", "remove", "add", "add"},
 		parks:   []string{"", "", "sub.registered"}},
 }
 
-var stepOrder = []string{"w", "start", "release", "relw", "grant", "poll", "eof", "cancel", "sleep", "check", "drain"}
+var stepOrder = []string{"w", "start", "release", "relw", "grant", "poll", "eof", "cancel", "sleep", "check", "drain", "rmadd"}
 
 // richNames switches the element alphabet of the scenario being generated to
 // names of which one is a string prefix of another and one contains the "/"
@@ -318,9 +319,18 @@ func genStep(pr profile, targets, nsubs int) func(t *rapid.T) Step {
 		case "w":
 			s.W = wop.Draw(t, "w")
 			s.ParkFeed = len(pr.parks) > 1 && rapid.IntRange(0, 5).Draw(t, "parkfeed") == 0
+			if len(pr.parks) > 1 && !s.ParkFeed && rapid.IntRange(0, 4).Draw(t, "parkcb") == 0 {
+				s.ParkCB = rapid.SampledFrom([]int{1, 1, 2, 3}).Draw(t, "parkcb-n")
+			}
 		case "start", "release":
 			s.Sub = rapid.IntRange(0, nsubs-1).Draw(t, "sub")
 			s.Park = rapid.SampledFrom(pr.parks).Draw(t, "park")
+		case "rmadd":
+			s.W = wop.Draw(t, "w")
+			s.W.Kind, s.W.Atomic = "noti", false
+			if len(s.W.Updates) == 0 {
+				s.W.Updates = []Upd{{Path: genElems(t, 1, 2, false), Val: genVal(t)}}
+			}
 		case "relw":
 			s.N = rapid.IntRange(0, 2).Draw(t, "which")
 		case "grant":
